@@ -249,6 +249,19 @@ theorem pairFix_exec {name : Asset → String} {w w' : World} {op : Op} {out : O
     simp only [exec, bind_ok_iff, pure_ok_iff, Prod.mk.injEq] at h
     obtain ⟨w1, h1, rfl, _⟩ := h
     exact pairFix_of_same (tokBurn_same h1).1
+  | tokTransferFrom t sp o d a =>
+    simp only [exec, bind_ok_iff, pure_ok_iff, Prod.mk.injEq] at h
+    obtain ⟨w1, h1, rfl, _⟩ := h
+    exact pairFix_of_same (tokTransferFrom_same h1).1
+  | tokSendFrom t sp o d a hk => exact pairFix_of_same (tokSendFrom_same h)
+  | tokBurnFrom t sp o a =>
+    simp only [exec, bind_ok_iff, pure_ok_iff, Prod.mk.injEq] at h
+    obtain ⟨w1, h1, rfl, _⟩ := h
+    exact pairFix_of_same (tokBurnFrom_same h1).1
+  | tokDecAllow t o sp a =>
+    simp only [exec, bind_ok_iff, pure_ok_iff, Prod.mk.injEq] at h
+    obtain ⟨w1, h1, rfl, _⟩ := h
+    exact pairFix_of_same (tokDecAllow_same h1).1
   | pair s p f m =>
     have h' : pairExec w s p f m = .ok (w', out) := h
     rcases pairExec_cases h' with hs | ⟨d, da, db, w0, rfl, hs0, hu⟩
@@ -391,6 +404,19 @@ theorem envEq_exec {name : Asset → String} {w w' : World} {op : Op} {out : Out
     simp only [exec, bind_ok_iff, pure_ok_iff, Prod.mk.injEq] at h
     obtain ⟨w1, h1, rfl, _⟩ := h
     exact envEq_of_same (tokBurn_same h1).1
+  | tokTransferFrom t sp o d a =>
+    simp only [exec, bind_ok_iff, pure_ok_iff, Prod.mk.injEq] at h
+    obtain ⟨w1, h1, rfl, _⟩ := h
+    exact envEq_of_same (tokTransferFrom_same h1).1
+  | tokSendFrom t sp o d a hk => exact envEq_of_same (tokSendFrom_same h)
+  | tokBurnFrom t sp o a =>
+    simp only [exec, bind_ok_iff, pure_ok_iff, Prod.mk.injEq] at h
+    obtain ⟨w1, h1, rfl, _⟩ := h
+    exact envEq_of_same (tokBurnFrom_same h1).1
+  | tokDecAllow t o sp a =>
+    simp only [exec, bind_ok_iff, pure_ok_iff, Prod.mk.injEq] at h
+    obtain ⟨w1, h1, rfl, _⟩ := h
+    exact envEq_of_same (tokDecAllow_same h1).1
   | pair s p f m =>
     have h' : pairExec w s p f m = .ok (w', out) := h
     rcases pairExec_cases h' with hs | ⟨d, da, db, w0, rfl, hs0, hu⟩
@@ -571,6 +597,19 @@ theorem regGrows_exec {name : Asset → String} {w w' : World} {op : Op} {out : 
     simp only [exec, bind_ok_iff, pure_ok_iff, Prod.mk.injEq] at h
     obtain ⟨w1, h1, rfl, _⟩ := h
     exact regGrows_of_eq (tokBurn_same h1).1.registry
+  | tokTransferFrom t sp o d a =>
+    simp only [exec, bind_ok_iff, pure_ok_iff, Prod.mk.injEq] at h
+    obtain ⟨w1, h1, rfl, _⟩ := h
+    exact regGrows_of_eq (tokTransferFrom_same h1).1.registry
+  | tokSendFrom t sp o d a hk => exact regGrows_of_eq (tokSendFrom_same h).registry
+  | tokBurnFrom t sp o a =>
+    simp only [exec, bind_ok_iff, pure_ok_iff, Prod.mk.injEq] at h
+    obtain ⟨w1, h1, rfl, _⟩ := h
+    exact regGrows_of_eq (tokBurnFrom_same h1).1.registry
+  | tokDecAllow t o sp a =>
+    simp only [exec, bind_ok_iff, pure_ok_iff, Prod.mk.injEq] at h
+    obtain ⟨w1, h1, rfl, _⟩ := h
+    exact regGrows_of_eq (tokDecAllow_same h1).1.registry
   | pair s p f m =>
     have h' : pairExec w s p f m = .ok (w', out) := h
     rcases pairExec_cases h' with hs | ⟨d, da, db, w0, rfl, hs0, hu⟩
@@ -663,14 +702,18 @@ theorem created_registered_forever {name : Asset → String} {w w' : World} {s :
 /-! ### C07: who can change the supply of an LP token -/
 
 /-- the operations that can change the total supply of the cw20 token `t`: a provision addressed to a pair whose LP
-token is `t`; a withdrawal hook delivered by `t` to such a pair (cw20 `Send`), or the same `Receive` submitted raw
-with `t` itself as the sender; a holder's own burn.  Routes are absent: the router only ever swaps. -/
+token is `t`; a withdrawal hook delivered by `t` to such a pair (cw20 `Send`, or `SendFrom` by a spender with the
+holder's allowance), or the same `Receive` submitted raw with `t` itself as the sender; a burn of a holder's tokens
+by the holder (`Burn`) or by a spender with its allowance (`BurnFrom`).  Routes are absent: the router only ever
+swaps. -/
 def LpChanger (w : World) (op : Op) (t : Nat) : Prop :=
   (∃ s q Q f as0 am0 as1 am1 tol r, w.pair q = some Q ∧ Q.lp = t ∧
       op = .pair s q f (.provide as0 am0 as1 am1 tol r)) ∨
   (∃ s q Q a, w.pair q = some Q ∧ Q.lp = t ∧ op = .tokSend t s q a .withdraw) ∨
+  (∃ sp o q Q a, w.pair q = some Q ∧ Q.lp = t ∧ op = .tokSendFrom t sp o q a .withdraw) ∨
   (∃ q Q f from_ a, w.pair q = some Q ∧ Q.lp = t ∧ op = .pair t q f (.receive from_ a .withdraw)) ∨
-  (∃ s a, op = .tokBurn t s a)
+  (∃ s a, op = .tokBurn t s a) ∨
+  (∃ sp o a, op = .tokBurnFrom t sp o a)
 
 theorem exec_moves_lp {name : Asset → String} {w w' : World} {op : Op} {out : Out}
     (h : exec name w op = .ok (w', out)) :
@@ -738,7 +781,7 @@ theorem exec_moves_lp {name : Asset → String} {w w' : World} {op : Op} {out : 
   | tokBurn t s a =>
     simp only [exec, bind_ok_iff, pure_ok_iff, Prod.mk.injEq] at h
     obtain ⟨w1, h1, rfl, _⟩ := h
-    exact .burn (S := fun _ => True) trivial (.inr (.inr (.inr ⟨s, a, rfl⟩))) h1
+    exact .burn (S := fun _ => True) trivial (.inr (.inr (.inr (.inr (.inl ⟨s, a, rfl⟩))))) h1
   | pair s p f m =>
     simp only [exec] at h
     cases m with
@@ -775,7 +818,7 @@ theorem exec_moves_lp {name : Asset → String} {w w' : World} {op : Op} {out : 
         rw [hpair, hP] at hP2
         injection hP2 with hP2
         subst hP2
-        exact .inr (.inr (.inl ⟨p, P, f, from_, amount, hP, rfl, rfl⟩))
+        exact .inr (.inr (.inr (.inl ⟨p, P, f, from_, amount, hP, rfl, rfl⟩)))
       | routerOps ops mn tgt => exact absurd h1 C14.pairReceive_routerOps
       | garbage => exact absurd h1 C14.pairReceive_garbage
     | updateDecimals d da db =>
@@ -799,10 +842,49 @@ theorem exec_moves_lp {name : Asset → String} {w w' : World} {op : Op} {out : 
     refine C07.facExec_moves (S := fun _ => True) h1 trivial trivial ?_
     intro hF a0 a1 req c ld np nl hm
     exact (hF s f a0 a1 req c ld np nl (by rw [hm])).2.1
+  | tokTransferFrom t sp o d a =>
+    simp only [exec, bind_ok_iff, pure_ok_iff, Prod.mk.injEq] at h
+    obtain ⟨w1, h1, rfl, _⟩ := h
+    exact .xferFrom (S := fun _ => True) trivial trivial h1
+  | tokSendFrom t sp o d a hk =>
+    simp only [exec] at h
+    obtain ⟨w1, h1, ⟨hd, h2⟩ | ⟨_, _, _, h2⟩⟩ := tokSendFrom_ok h
+    · refine (C07.Moves.xferFrom (S := fun _ => True) trivial trivial h1).trans ?_
+      have hpair := (tokTransferFrom_same h1).1.pair
+      cases hk with
+      | swap offer amt b ms tgt =>
+        obtain ⟨P, _, _, _, _, w2, o2, hs, he⟩ := C14.pairReceive_swap h2
+        simp only [Prod.mk.injEq] at he
+        obtain ⟨rfl, _⟩ := he
+        exact (C07.pairSwap_moves (S := fun _ => True) hs trivial trivial).1
+      | withdraw =>
+        obtain ⟨P, hP, ht, _⟩ := C14.pairReceive_withdraw h2
+        rw [hpair] at hP
+        subst ht
+        refine (C07.pairReceive_moves (S := fun _ => True) h2 trivial trivial (fun _ _ => trivial) ?_).1
+        intro P2 hP2
+        rw [hpair, hP] at hP2
+        injection hP2 with hP2
+        subst hP2
+        exact .inr (.inr (.inl ⟨sp, o, d, P, a, hP, rfl, rfl⟩))
+      | routerOps ops mn tgt => exact absurd h2 C14.pairReceive_routerOps
+      | garbage => exact absurd h2 C14.pairReceive_garbage
+    · exact (C07.Moves.xferFrom (S := fun _ => True) trivial trivial h1).trans
+        (C07.routerReceive_moves (S := fun _ => True) h2 trivial (fun _ _ => trivial)
+          (fun _ => ⟨trivial, fun _ _ => trivial⟩))
+  | tokBurnFrom t sp o a =>
+    simp only [exec, bind_ok_iff, pure_ok_iff, Prod.mk.injEq] at h
+    obtain ⟨w1, h1, rfl, _⟩ := h
+    exact .burnFrom (S := fun _ => True) trivial (.inr (.inr (.inr (.inr (.inr ⟨sp, o, a, rfl⟩))))) h1
+  | tokDecAllow t o sp a =>
+    simp only [exec, bind_ok_iff, pure_ok_iff, Prod.mk.injEq] at h
+    obtain ⟨w1, h1, rfl, _⟩ := h
+    exact .decAllow (S := fun _ => True) trivial h1
 
 /-- the total supply of a cw20 token `t` is changed only by: a provision addressed to a pair whose LP token is `t`,
-a withdrawal hook that `t` delivers to such a pair (or the same `Receive` submitted raw with `t` as sender), or a
-holder's own burn.  In particular no route (`SwapOperations` by either entry point), swap, transfer, allowance,
+a withdrawal hook that `t` delivers to such a pair (`Send`, or `SendFrom` by a spender with the holder's allowance;
+or the same `Receive` submitted raw with `t` as sender), or a burn of a holder's tokens by the holder or by a spender
+with its allowance (`BurnFrom`).  In particular no route (`SwapOperations` by either entry point), swap, transfer, allowance,
 decimals update or factory operation changes it.  (For `t` that is not an LP token this is `supply_non_lp`.) -/
 theorem lp_supply_changes_only {name : Asset → String} {w w' : World} {op : Op} {out : Out}
     (h : exec name w op = .ok (w', out)) (hf : FreshOK w op) (t : Nat) :
@@ -810,8 +892,10 @@ theorem lp_supply_changes_only {name : Asset → String} {w w' : World} {op : Op
     (∃ s q Q f as0 am0 as1 am1 tol r, w.pair q = some Q ∧ Q.lp = t ∧
         op = .pair s q f (.provide as0 am0 as1 am1 tol r)) ∨
     (∃ s q Q a, w.pair q = some Q ∧ Q.lp = t ∧ op = .tokSend t s q a .withdraw) ∨
+    (∃ sp o q Q a, w.pair q = some Q ∧ Q.lp = t ∧ op = .tokSendFrom t sp o q a .withdraw) ∨
     (∃ q Q f from_ a, w.pair q = some Q ∧ Q.lp = t ∧ op = .pair t q f (.receive from_ a .withdraw)) ∨
-    (∃ s a, op = .tokBurn t s a) := by
+    (∃ s a, op = .tokBurn t s a) ∨
+    (∃ sp o a, op = .tokBurnFrom t sp o a) := by
   by_cases hq : LpChanger w op t
   · exact .inr hq
   · exact .inl ((exec_moves_lp h).supply_frame hf t hq)
@@ -823,15 +907,18 @@ theorem lp_supply_changes_only_pair {name : Asset → String} {w w' : World} {op
     supply w' t = supply w t ∨
     (∃ s f as0 am0 as1 am1 tol r, op = .pair s p f (.provide as0 am0 as1 am1 tol r)) ∨
     (∃ s a, op = .tokSend t s p a .withdraw) ∨
+    (∃ sp o a, op = .tokSendFrom t sp o p a .withdraw) ∨
     (∃ f from_ a, op = .pair t p f (.receive from_ a .withdraw)) ∨
-    (∃ s a, op = .tokBurn t s a) := by
+    (∃ s a, op = .tokBurn t s a) ∨
+    (∃ sp o a, op = .tokBurnFrom t sp o a) := by
   rcases lp_supply_changes_only h hf t with e | ⟨s, q, Q, f, as0, am0, as1, am1, tol, r, hQ, hl, rfl⟩ |
-    ⟨s, q, Q, a, hQ, hl, rfl⟩ | ⟨q, Q, f, from_, a, hQ, hl, rfl⟩ | e
+    ⟨s, q, Q, a, hQ, hl, rfl⟩ | ⟨sp, o, q, Q, a, hQ, hl, rfl⟩ | ⟨q, Q, f, from_, a, hQ, hl, rfl⟩ | e
   · exact .inl e
   · rw [huniq q Q hQ hl]; exact .inr (.inl ⟨s, f, as0, am0, as1, am1, tol, r, rfl⟩)
   · rw [huniq q Q hQ hl]; exact .inr (.inr (.inl ⟨s, a, rfl⟩))
-  · rw [huniq q Q hQ hl]; exact .inr (.inr (.inr (.inl ⟨f, from_, a, rfl⟩)))
-  · exact .inr (.inr (.inr (.inr e)))
+  · rw [huniq q Q hQ hl]; exact .inr (.inr (.inr (.inl ⟨sp, o, a, rfl⟩)))
+  · rw [huniq q Q hQ hl]; exact .inr (.inr (.inr (.inr (.inl ⟨f, from_, a, rfl⟩))))
+  · exact .inr (.inr (.inr (.inr (.inr e))))
 
 /-- an operation submitted by an external actor (not a cw20 contract) cannot be the raw `Receive` form -/
 theorem lp_supply_changes_only_valid {name : Asset → String} {w w' : World} {op : Op} {out : Out}
@@ -840,11 +927,14 @@ theorem lp_supply_changes_only_valid {name : Asset → String} {w w' : World} {o
     (∃ s q Q f as0 am0 as1 am1 tol r, w.pair q = some Q ∧ Q.lp = t ∧
         op = .pair s q f (.provide as0 am0 as1 am1 tol r)) ∨
     (∃ s q Q a, w.pair q = some Q ∧ Q.lp = t ∧ op = .tokSend t s q a .withdraw) ∨
-    (∃ s a, op = .tokBurn t s a) := by
-  rcases lp_supply_changes_only h hv.fresh t with e | e | e | ⟨q, Q, f, from_, a, _, _, rfl⟩ | e
+    (∃ sp o q Q a, w.pair q = some Q ∧ Q.lp = t ∧ op = .tokSendFrom t sp o q a .withdraw) ∨
+    (∃ s a, op = .tokBurn t s a) ∨
+    (∃ sp o a, op = .tokBurnFrom t sp o a) := by
+  rcases lp_supply_changes_only h hv.fresh t with e | e | e | e | ⟨q, Q, f, from_, a, _, _, rfl⟩ | e
   · exact .inl e
   · exact .inr (.inl e)
   · exact .inr (.inr (.inl e))
+  · exact .inr (.inr (.inr (.inl e)))
   · exfalso
     have hat := hv.actor.2.1
     cases hT : w.tok t with
@@ -853,7 +943,7 @@ theorem lp_supply_changes_only_valid {name : Asset → String} {w w' : World} {o
       have : (w.tok t).isNone = true := hat
       rw [hT] at this
       cases this
-  · exact .inr (.inr (.inr e))
+  · exact .inr (.inr (.inr (.inr e)))
 
 /-- the supply of a live cw20 token minted by `p` grows only through a provision addressed to `p` -/
 theorem lp_supply_grows_only {name : Asset → String} {w w' : World} {op : Op} {out : Out}
